@@ -24,13 +24,16 @@ REQUIRED_THEOREMS = [
     # P0 Euler counting (exact on the containers the code maintains; `_partial`: edge/face count of the rebuilt list is a
     # hypothesis checked per scenario)
     "euler_invariant_fan", "euler_invariant_quad", "euler_invariant_triangulate", "euler_invariant_split_edge",
-    "euler_invariant_loop_partial", "euler_invariant_quads3_partial", "euler_invariant_cell_fan_partial",
-    "euler_invariant_face_center_partial",
+    "loop_distinct_edge_count", "euler_invariant_loop", "quads3_distinct_edge_count", "euler_invariant_quads3",
+    "euler_invariant_sub6", "euler_invariant_cell_fan",
+    # P1 manifoldness (round 2): consistent orientation + border-side correspondence
+    "manifold_preserved_loop", "border_preserved_loop", "manifold_preserved_fan", "border_preserved_fan",
+    "euler_invariant_face_center",
     # P0 area / volume
     "area_preserved_quad_split", "area_preserved_fan", "area_preserved_triangulate", "area_preserved_loop",
     "area_parts_positive_loop", "area_preserved_quads3", "area_parts_positive_quads3", "area_preserved_block",
     "volume_preserved_cell_fan",
-    "volume_preserved_face_center_partial", "length_preserved_split_edge",
+    "volume_preserved_face_center", "volume_parts_positive_face_center", "length_preserved_split_edge",
     # P0 vertices
     "old_vertices_unchanged", "new_vertex_is_centre",
     # P0 input object
@@ -958,23 +961,27 @@ def search_on_break(rng, broken, mismatches):
 MANIFEST = {
     "level_text": ("Proof. Lean 4 theorems about an executable model of mouette/mesh/subdivision.py (every operation on the vertex / "
                    "edge / face / cell lists exactly as coded after the fix: commits, the editing block with its two aliases, "
-                   "prepare()'s completion), for ALL meshes and ALL operation sequences: documented element counts of every operation "
-                   "(induction over the face loop of triangulate; 4F / 3F / 6F / +3 cells / +2k cells); V-E+F invariant for fan, quad "
-                   "cut, triangulate and split_edge on the containers the code maintains; total vector area preserved by every surface "
-                   "operation and by every sequence of them inside a block (area_preserved_block; fan of any polygon by a telescoping "
-                   "induction, 1->4 and 1->3 via the proved fact that the looked-up indices are the edge midpoints), sub-faces are "
-                   "positive multiples of the parent; signed volume preserved by the cell fan (mesh level) and per cell for the "
-                   "face-centre split; old vertices stay in place through any block; new vertices are the midpoints / barycentres; the "
-                   "input object IS the refined mesh after the repaired __exit__ (and a proved counter-example for the shipped one). "
-                   "The refinement tables of the source are re-extracted with Python ast on every run and bridged to the model by rfl. "
-                   "The model is tied to the code by a scenario correspondence (result containers in order, input object afterwards) "
-                   "and an independent oracle (manifoldness, chi / border loops / components via surface_stats, area, volume, "
-                   "connectivity answers vs direct inspection, input object never half-updated)."),
+                   "prepare()'s completion), for ALL meshes and ALL operation sequences: documented element counts of every operation; "
+                   "Euler characteristic preserved by EVERY operation - in-place surface operations and split_edge on the maintained "
+                   "containers, 1->4 / 1->3 quads / 1->6 via the proved number of DISTINCT edges of the rebuilt edge set "
+                   "(E' = 2E+3F, 2E+6F), cell fan and face-centre split via the proved number of faces/edges completed by prepare() "
+                   "(+6/+4, +2+3k/+3+k) - under decidable hypotheses on the input (edge list = set of face sides, faces share at most "
+                   "one side, face list = faces of the cells, distinct tetrahedral cells); consistent orientation / at most two faces "
+                   "per edge preserved by the 1->4 pass and by the fan split, and border sides correspond exactly to (halves of) border "
+                   "sides; total vector area preserved by every surface operation and by every sequence of them inside a block "
+                   "(area_preserved_block), sub-faces are positive multiples of the parent; total signed volume preserved by the cell "
+                   "fan and by the face-centre split (mesh level); old vertices stay in place through any block; new vertices are the "
+                   "midpoints / barycentres; the input object IS the refined mesh after the repaired __exit__ (and a proved "
+                   "counter-example for the shipped one). The refinement tables of the source are re-extracted with Python ast on "
+                   "every run and bridged to the model by rfl. The model is tied to the code by a scenario correspondence (result "
+                   "containers in order, input object afterwards) and an independent oracle (manifoldness, chi / border loops / "
+                   "components via surface_stats, area, volume, connectivity answers vs direct inspection, input object state)."),
     "level_note": ("Trusted: Lean kernel + propext/Classical.choice/Quot.sound; the hand-written model (checked against the code on the "
                    "scenarios of each run only); the ast translator for the literal tables; float rounding not modelled. NOT proved "
-                   "(oracle/correspondence only): manifoldness, border loops and components of the result, the number of distinct "
-                   "edges after loop/3quads/1->6 and of faces/edges completed by prepare() for the volume splits (the Euler theorems "
-                   "for those operations are `_partial`: conditional on that count), mesh-level volume for the face-centre split, "
+                   "(oracle/correspondence only): number of border loops and connected components of the result, the umbrella "
+                   "condition at vertices (full 2-manifoldness), orientation/border preservation for the quad cut (false in general: "
+                   "open finding) and for 1->3 quads / 1->6, preservation of the counting hypotheses themselves by the operations "
+                   "(so the Euler theorems are per operation, not per sequence, for the set-rebuilding operations), "
                    "split_double_boundary_edges_triangles (oracle only). Open finding: triangulating a polygon surface that is not a "
                    "regular complex."),
     "technique": "Lean 4 proofs (induction over face lists / operation sequences, ring identities over Rat) over an executable model; ast-translated tables with rfl bridges; differential scenario correspondence + direct oracle",
